@@ -1,7 +1,7 @@
 import Driver.Proto
 import XsdataModel.Py.TblEnv
 import XsdataModel.Names.TblUEnv
-import XsdataModel.Names.Rename
+import XsdataModel.Names.RenameClasses
 open Lean Proto Py Xs.Text Xs.Filters Xs.Rename
 
 namespace OpsNames
@@ -84,6 +84,12 @@ def run (op : String) (a : Json) : Option (Except String Json) :=
   | "names.next_available_name" => some do
       let n ← getStr a "name"; let r ← getStrs a "inner"
       pure <| optStrJson (nextAvailableName n r)
+  | "names.rename_classes" => some do
+      let style ← getStr a "style"
+      let xs ← getArr a "classes"
+      let cs ← xs.mapM (fun j => do
+        pure (⟨← getStr j "qname", ← getBool j "abstract", ← getBool j "element", ← getStr j "location"⟩ : Cls))
+      pure <| ok (jList jStr (renameClasses style cs))
   | _ => none
 
 end OpsNames
